@@ -20,6 +20,12 @@ update, any number of times, the next fault-free reconcile with an empty batch (
 queue, one fault-free run of the worker) ends with files = model and HAProxy = files.  The code
 before the repair (`Opt.repaired = false`: the flags are never looked at) is kept for the
 historical witnesses, one per fault point and finding signature.
+
+The custom HTTP response files (`errorfiles/<code>.http`, `lua/responses.lua`; layer `RW` / `updR` of the
+model): `retry_converges_resp` / `retry_converges_queue_resp` extend the two theorems to them and to the
+faults at them, `resp_files_loadable` says that haproxy.cfg never names a response file that does not
+exist.  `ROpt.gated = true` (response files written only when `globalOld == nil || global != globalOld`)
+is not the code that exists; two witnesses show what such a gate loses.
 -/
 namespace HapVerif.C12
 open HapVerif.C05
@@ -267,8 +273,157 @@ theorem queue_does_not_help_a_failed_write :
     old.w.g.w.store.items 0 = some c8 ∧ old.w.g.w.disk 0 0 = some c4 ∧
     cur.err = false ∧ cur.w.pending = false ∧ cur.w.g.w.disk 0 0 = some c8 ∧ cur.w.run.back 0 = some c8 := by decide
 
+/-! ### the custom HTTP response files -/
+
+theorem runR_append (ro : ROpt) (sh : Sh p) (w : RW p) (a b : List (REv p)) :
+    runR ro sh w (a ++ b) = runR ro sh (runR ro sh w a) b := by
+  simp [runR, List.foldl_append]
+
+/-- **C12 with the response files, direct reload.**  For every shard count, shard function and name
+universe, every disciplined history of batches (the global config with its custom responses is filled
+inside full resyncs), updates and queue runs with ANY fault in ANY of them — the faults of
+`retry_converges`, plus an errorfile or responses.lua that cannot be written —, any number of times: the
+next reconcile without a fault returns no error; every file holds the rendering of the in-memory model,
+`errorfiles/<code>.http` and `lua/responses.lua` included; haproxy.cfg names the errorfile iff one is
+configured; HAProxy holds all of them; nothing stays owed. -/
+theorem retry_converges_resp (ro : ROpt) (sh : Sh p) (wf : sh.WF) (hrep : ro.o.repaired = true)
+    (hg : ro.gated = false) (hq : ro.o.queue = false) (hist : List (REv p)) (hok : allOkR ro sh {} hist = true) :
+    (updR ro sh (.base .none) (runR ro sh {} hist)).err = false ∧
+    DiskGood ro.o sh (updR ro sh (.base .none) (runR ro sh {} hist)).w.fw ∧
+    RunGood sh (updR ro sh (.base .none) (runR ro sh {} hist)).w.fw ∧
+    RespGood (updR ro sh (.base .none) (runR ro sh {} hist)).w ∧
+    RespRunGood (updR ro sh (.base .none) (runR ro sh {} hist)).w ∧
+    (updR ro sh (.base .none) (runR ro sh {} hist)).w.fw.rewriteOwed = false ∧
+    (updR ro sh (.base .none) (runR ro sh {} hist)).w.fw.reloadOwed = false := by
+  have hj := runR_rjinv wf hg hrep hist (rjinv_init ro sh) hok
+  have hr := updR_rinv hg hrep sh (.base .none) hj.r
+  generalize runR ro sh {} hist = w at hj hr ⊢
+  have hj0 := jinv_fwOf (w := w) hj.j
+  obtain ⟨he, hro, _, hd, hrun, _⟩ := upd_none_outcome wf hrep hj0
+  have hc := (upd_flow ro.o sh .none (fwOf w) hrep).1
+  have hpe := (upd_jinv wf hrep hj0 .none).q hq
+  rw [updR_real hg] at hr ⊢
+  exact ⟨he, hd, (hrun hq).1, hr.a hro hc, hr.b hro hc (hrun hq).2 hpe, hro, (hrun hq).2⟩
+
+/-- **C12 with the response files, reload queue.**  The same: the next reconcile without a fault followed by
+one fault-free run of the queue worker. -/
+theorem retry_converges_queue_resp (ro : ROpt) (sh : Sh p) (wf : sh.WF) (hrep : ro.o.repaired = true)
+    (hg : ro.gated = false) (hist : List (REv p)) (hok : allOkR ro sh {} hist = true) :
+    (updR ro sh (.base .none) (runR ro sh {} hist)).err = false ∧
+    (qrunR ro sh .none (updR ro sh (.base .none) (runR ro sh {} hist)).w).err = false ∧
+    DiskGood ro.o sh (qrunR ro sh .none (updR ro sh (.base .none) (runR ro sh {} hist)).w).w.fw ∧
+    RunGood sh (qrunR ro sh .none (updR ro sh (.base .none) (runR ro sh {} hist)).w).w.fw ∧
+    RespGood (qrunR ro sh .none (updR ro sh (.base .none) (runR ro sh {} hist)).w).w ∧
+    RespRunGood (qrunR ro sh .none (updR ro sh (.base .none) (runR ro sh {} hist)).w).w ∧
+    (qrunR ro sh .none (updR ro sh (.base .none) (runR ro sh {} hist)).w).w.fw.pending = false ∧
+    (qrunR ro sh .none (updR ro sh (.base .none) (runR ro sh {} hist)).w).w.fw.reloadOwed = false := by
+  have hj := runR_rjinv wf hg hrep hist (rjinv_init ro sh) hok
+  have hr := qrunR_rinv hg sh .none (updR_rinv hg hrep sh (.base .none) hj.r)
+  generalize runR ro sh {} hist = w at hj hr ⊢
+  have hj0 := jinv_fwOf (w := w) hj.j
+  obtain ⟨he, hro, hf, hd, _, hp⟩ := upd_none_outcome wf hrep hj0
+  have hc := (upd_flow ro.o sh .none (fwOf w) hrep).1
+  obtain ⟨hqe, hqp, hqo, hqr⟩ := qrun_settles hf hp (f := .none) rfl
+  obtain ⟨q1, q2, _⟩ := qrun_flow sh .none (upd ro.o sh .none (fwOf w)).w
+  rw [updR_real hg] at hr ⊢
+  rw [qrunR_real hg] at hr ⊢
+  have hro' : (qrun sh .none (upd ro.o sh .none (fwOf w)).w).w.rewriteOwed = false := by rw [q2]; exact hro
+  have hc' : (qrun sh .none (upd ro.o sh .none (fwOf w)).w).w.g.committed = true := by rw [q1]; exact hc
+  exact ⟨he, hqe, qrun_diskGood hd _, hqr, hr.a hro' hc', hr.b hro' hc' hqo hqp, hqp, hqo⟩
+
+/-- haproxy.cfg never names a response file that does not exist (HAProxy would refuse to start): whatever
+failed, an `errorfile` line is only ever written after its file, the first haproxy.cfg after responses.lua -/
+theorem resp_files_loadable (ro : ROpt) (sh : Sh p) (wf : sh.WF) (hrep : ro.o.repaired = true)
+    (hg : ro.gated = false) (hist : List (REv p)) (hok : allOkR ro sh {} hist = true) :
+    loadable (runR ro sh {} hist).disk = true :=
+  (runR_rjinv wf hg hrep hist (rjinv_init ro sh) hok).r.c
+
+/-- a response file that cannot be written is an error of the update and leaves the rewrite owed: whenever
+the update gets as far as `writeConfig`, from any state of any history -/
+theorem resp_write_failure_is_owed (ro : ROpt) (sh : Sh p) (wf : sh.WF) (hrep : ro.o.repaired = true)
+    (hg : ro.gated = false) (hist : List (REv p)) (hok : allOkR ro sh {} hist = true) (f : RFault)
+    (hf : respFires f (runR ro sh {} hist).glob = true)
+    (hreach : (upd ro.o sh .mainCfg (fwOf (runR ro sh {} hist))).reached = true) :
+    (updR ro sh f (runR ro sh {} hist)).err = true ∧ (updR ro sh f (runR ro sh {} hist)).w.fw.rewriteOwed = true := by
+  have hj := runR_rjinv wf hg hrep hist (rjinv_init ro sh) hok
+  generalize runR ro sh {} hist = w at hj hf hreach ⊢
+  rw [updR_real hg, baseFault_fires hf]
+  obtain ⟨_, _, u3, _, u5, _⟩ := upd_flow ro.o sh .mainCfg (fwOf w) hrep
+  have hnm := u5 rfl hreach
+  rcases upd_outcome wf hrep (jinv_fwOf (w := w) hj.j) .mainCfg with ⟨_, he, hro, _, _⟩ | ⟨hro, _⟩
+  · exact ⟨he, hro⟩
+  · have := u3 hro hreach; rw [hnm] at this; cases this
+
+def rD : ROpt := {}
+def rQ : ROpt := { o := oQ }
+/-- NOT the code that exists: response files behind `if GlobalChanged()` -/
+def rG : ROpt := { gated := true }
+
+/-- non-vacuity of `retry_converges_resp`: a full resync brings a new Lua response and a new errorfile; the
+update fails at the frontend maps, the retry at the errorfile, the next one at responses.lua (the errorfile
+is written by then, haproxy.cfg does not name it yet); the fault-free retry writes and loads everything -/
+example :
+    let hist : List (REv 2) := [.ev (.hacq 0 1), .glob ⟨1, 0⟩, .ev (.upd .none),
+      .ev .full, .ev (.hacq 0 1), .glob ⟨2, 7⟩, .ev (.upd .frontMaps), .updHa, .updLua]
+    let w := runR rD s0 {} hist
+    let r := updR rD s0 (.base .none) w
+    allOkR rD s0 {} hist = true ∧
+    (updR rD s0 .haResp (runR rD s0 {} (hist.take 7))).err = true ∧
+    (updR rD s0 .luaResp (runR rD s0 {} (hist.take 8))).err = true ∧
+    w.fw.rewriteOwed = true ∧ w.glob = ⟨2, 7⟩ ∧ w.disk = ⟨some 7, some 1, some false⟩ ∧ w.run = ⟨none, some 1, some false⟩ ∧
+    r.err = false ∧ r.w.disk = ⟨some 7, some 2, some true⟩ ∧ r.w.run = ⟨some 7, some 2, some true⟩ ∧
+    r.w.fw.rewriteOwed = false ∧ r.w.fw.reloadOwed = false := by decide
+
+/-- non-vacuity of `retry_converges_queue_resp` -/
+example :
+    let hist : List (REv 2) := [.ev (.acq 0 c4), .glob ⟨1, 0⟩, .ev (.upd .none), .ev (.qrun .none),
+      .ev .full, .ev (.acq 0 c4), .glob ⟨1, 3⟩, .updLua, .ev (.qrun .reloadSend)]
+    let w := runR rQ s0 {} hist
+    let r := qrunR rQ s0 .none (updR rQ s0 (.base .none) w).w
+    allOkR rQ s0 {} hist = true ∧ w.fw.rewriteOwed = true ∧ w.disk = ⟨some 3, some 1, some false⟩ ∧
+    r.err = false ∧ r.w.disk = ⟨some 3, some 1, some true⟩ ∧ r.w.run = ⟨some 3, some 1, some true⟩ ∧
+    r.w.fw.pending = false := by decide
+
+/-- `change-lost-after-failed-response-write`, witness of the gated variant: a full resync changes the Lua
+based response (`http-response-404`); the update fails before `writeConfig` (frontend maps) and the
+deferred `Commit()` copies global into globalOld; the retry rewrites maps and haproxy.cfg, reloads, returns
+success — and skips responses.lua, `global == globalOld` by now: the file and HAProxy keep the old
+response, in every later update too.  The code that exists writes it. -/
+theorem gated_response_files_lose_the_change :
+    let hist : List (REv 2) := [.ev (.hacq 0 1), .glob ⟨1, 0⟩, .ev (.upd .none),
+      .ev .full, .ev (.hacq 0 1), .glob ⟨2, 0⟩, .ev (.upd .frontMaps)]
+    let bad := updR rG s0 (.base .none) (runR rG s0 {} hist)
+    let bad3 := updR rG s0 (.base .none) (runR rG s0 {} (hist ++ [.ev (.upd .none), .ev (.hrem [0]), .ev (.hacq 0 2), .ev (.upd .none)]))
+    let cur := updR rD s0 (.base .none) (runR rD s0 {} hist)
+    allOkR rD s0 {} (hist ++ [.ev (.upd .none), .ev (.hrem [0]), .ev (.hacq 0 2), .ev (.upd .none)]) = true ∧
+    (updR rG s0 (.base .frontMaps) (runR rG s0 {} (hist.take 6))).err = true ∧
+    bad.err = false ∧ bad.w.fw.rewriteOwed = false ∧ bad.w.glob.lua = 2 ∧ bad.w.disk.lua = some 1 ∧ bad.w.run.lua = some 1 ∧
+    bad3.err = false ∧ bad3.w.disk.lua = some 1 ∧ bad3.w.run.lua = some 1 ∧
+    cur.err = false ∧ cur.w.disk.lua = some 2 ∧ cur.w.run.lua = some 2 := by decide
+
+/-- `reload-fails-forever-cfg-names-missing-file`, witness of the gated variant: a full resync adds a HAProxy
+based response (`http-response-503`); the update fails before `writeConfig`; every retry writes a
+haproxy.cfg that names `errorfiles/503.http`, never writes that file, and fails to reload: the transient
+fault became permanent.  The very first update failing leaves no responses.lua the same way.  The code
+that exists writes the files and reloads. -/
+theorem gated_response_files_break_every_reload :
+    let hist : List (REv 2) := [.ev (.hacq 0 1), .ev (.upd .none),
+      .ev .full, .ev (.hacq 0 1), .glob ⟨0, 1⟩, .ev (.upd .frontMaps)]
+    let bad := updR rG s0 (.base .none) (runR rG s0 {} hist)
+    let bad3 := updR rG s0 (.base .none) (runR rG s0 {} (hist ++ [.ev (.upd .none), .ev (.upd .none)]))
+    let first := updR rG s0 (.base .none) (runR rG s0 {} [.ev (.hacq 0 1), .ev (.upd .frontMaps)])
+    let cur := updR rD s0 (.base .none) (runR rD s0 {} hist)
+    let curFirst := updR rD s0 (.base .none) (runR rD s0 {} [.ev (.hacq 0 1), .ev (.upd .frontMaps)])
+    allOkR rD s0 {} hist = true ∧
+    bad.err = true ∧ bad.w.disk = ⟨none, some 0, some true⟩ ∧ loadable bad.w.disk = false ∧ bad.w.run.main = some false ∧
+    bad3.err = true ∧ loadable bad3.w.disk = false ∧
+    first.err = true ∧ first.w.disk = ⟨none, none, some false⟩ ∧
+    cur.err = false ∧ cur.w.disk = ⟨some 1, some 0, some true⟩ ∧ cur.w.run = ⟨some 1, some 0, some true⟩ ∧
+    curFirst.err = false ∧ curFirst.w.disk = ⟨none, some 0, some false⟩ := by decide
+
 /-! ### regenerated facts: the Go source still has the shape the model assumes -/
 
+set_option maxRecDepth 4096 in
 /-- `HAProxyUpdate` defers `Commit()` before anything else, shrinks, takes `rewrite := i.rewriteOwed`, sets
 the flag, forces the rewrite when it was set; then the four writers in the modelled order, each returning
 at once on error; the dynamic updater, `updated = false` when rewriting; the gate in front of
@@ -278,7 +433,10 @@ returns nil; the reload queue gets `Add`, otherwise `Reload` is returned.  `Relo
 backend-maps guards listen to rewriteAll, WriteBackendMaps then visits `Items()`; `Commit` resets it.
 `Reconcile` swallows the error and asks for the same item again after `ReloadRetry`; the queue worker
 puts its item back.  Runtime commands need committed data.  Files are written in place with
-`os.WriteFile` after every template of the set was executed. -/
+`os.WriteFile` after every template of the set was executed.  `writeConfig` writes modsec, one errorfile
+per HAProxy based response, responses.lua, haproxy.cfg and the shard files in this order, nothing guards
+the response files, every failed write returns at once.  `Shrink` forces the rewrite when the global differs
+from `globalPrev`, which `Clear` fills from `globalOld` (or keeps) and `Commit` drops. -/
 theorem facts_c12 :
     Facts.c12UpdateStmts = ["if:i.config==nil=>return:nil", "defer:i.config.Commit", "call:i.config.SyncConfig",
       "call:i.config.Shrink", "assign:rewrite:=i.rewriteOwed", "assign:i.rewriteOwed=true",
@@ -294,11 +452,19 @@ theorem facts_c12 :
       "if:!updated||updater.cmdCnt>0||i.config.Backends().Changed()", "assign:i.rewriteOwed=false",
       "call:i.updateCertExpiring", "defer:?", "if:updated&&i.reloadOwed{updated=false}",
       "if:updated=>return:nil", "if:i.options.ReloadQueue!=nil=>return:nil", "return:i.Reload(timer)"] ∧
+    Facts.c12WriteConfigStmts = ["assign:err=i.modsecTmpl.Write(i.config)", "if:err!=nil=>return:err",
+      "range:i.config.Global().CustomHTTPHAResponses{assign:err=i.haResponseTmpl.WriteOutput(response,fmt.Sprintf(\"%s/errorfiles/%s.http\",i.options.HAProxyCfgDir,response.Name));if:err!=nil=>return:err}",
+      "assign:err=i.luaResponseTmpl.Write(i.config.Global().CustomHTTPLuaResponses)", "if:err!=nil=>return:err",
+      "assign:err=i.haproxyTmpl.Write(?)", "if:err!=nil=>return:err", "if:i.options.BackendShards>0", "return:err"] ∧
     Facts.c12ReloadStmts = ["if:i.options.TrackInstances", "assign:err:=i.reloadHAProxy()",
       "if:err!=nil{i.reloadOwed=true}=>return:fmt.Errorf", "assign:i.reloadOwed=false", "assign:i.up=true",
       "assign:message:=\"haproxy successfully reloaded\"", "if:i.options.IsExternal",
       "if:i.options.TrackInstances", "return:nil"] ∧
     Facts.c12ForceRewrite = ["c.rewriteAll=true", "c.frontend.Maps=nil", "c.backends.AllShardsChanged"] ∧
+    Facts.c12ShrinkStmts = ["call:c.hosts.Shrink", "call:c.backends.Shrink",
+      "if:c.globalPrev!=nil&&!reflect.DeepEqual(c.globalPrev,c.global)=>c.ForceRewrite"] ∧
+    Facts.c12GlobalPrev = ["Clear:config.globalPrev=c.globalOld", "Clear:config.globalPrev=c.globalPrev",
+      "Commit:c.globalPrev=nil"] ∧
     Facts.c12TcpMapsGuard = ["!c.tcpservices.Changed()&&!c.rewriteAll"] ∧
     Facts.c12BackendMapsGuard = ["!c.backends.Changed()&&!c.rewriteAll"] ∧
     Facts.c12BackendMapsVisited = [":=c.backends.ItemsAdd()", "=c.backends.Items()"] ∧
